@@ -98,7 +98,7 @@ theorem tamperTrunc_shape (pv : PVal) (n : Nat) :
   | Rec t v b =>
     simp only [tamperTrunc, shapePV, shapeSealed, shapePlain_len]
     cases b.plain.len? with
-    | none => rfl
+    | none => simp only; split <;> rfl
     | some l => simp only; split <;> rfl
 
 theorem tamperExtend_shape (pv : PVal) (n : Nat) :
